@@ -698,6 +698,88 @@ def interleave_output(ctx, rep, se2, fn2, b2, stmts, digests, EVEN_N, local_of):
 
 # ----------------------------------------------------------------------------- main
 
+def default_group_fast_path(ctx, se):
+    """A value `if N == N0 && g == g0 { C } else { calculate_xor_hash(N, g) }` in the client's M1
+    function, with N, g the announced parameters, N0 / g0 the built-in constants and C the constant
+    SHA1(N0) xor SHA1([g0]) (recomputed here): for every announced group it IS
+    calculate_xor_hash(N, g) - on the constant branch the two are equal by the guard.
+    Returns (phi term, general-branch term, blocks of the constant branch and of the guard
+    tests) or None."""
+    import hashlib
+    fb = ctx.fb
+    body = se.body
+    N0 = fb.const_bytes("primes::LARGE_SAFE_PRIME_LITTLE_ENDIAN")
+    g0 = fb.const_int("primes::GENERATOR")
+    if N0 is None or g0 is None:
+        return None
+    want_c = bytes(a ^ b for a, b in zip(hashlib.sha1(bytes(N0)).digest(), hashlib.sha1(bytes([g0])).digest()))
+    for x in walk(strip(se.ret)):
+        if x[0] != "phi" or x[1] != se.fn or (x[2], x[3]) not in se.phi_inputs:
+            continue
+        ins = se.phi_inputs[(x[2], x[3])]
+        if len(ins) != 2:
+            continue
+        cpred = gpred = gen = None
+        for p_, v in ins.items():
+            cv = canon(ctx, se, v)
+            if cv[0] == "bytes" and bytes(cv[1]) == want_c:
+                cpred = p_
+            elif util.is_call(strip(v), "srp_internal::calculate_xor_hash") and tuple(canon(ctx, se, a) for a in strip(v)[2]) == (("param", 6), ("param", 7)):
+                gpred, gen = p_, v
+        if cpred is None or gpred is None:
+            continue
+
+        def conjuncts(bb_sw, d, true_t, depth=0):
+            """the comparisons whose conjunction sends control from switch bb_sw to true_t"""
+            d = strip(d)
+            if depth > 4:
+                return None
+            if util.is_call(d) and d[1].endswith("::eq") and len(d[2]) == 2:
+                return [("eq", canon(ctx, se, d[2][0]), canon(ctx, se, d[2][1]), bb_sw)]
+            if d[0] == "binop" and d[1] == "Eq":
+                return [("eq", canon(ctx, se, d[2]), canon(ctx, se, d[3]), bb_sw)]
+            if d[0] == "phi" and (d[2], d[3]) in se.phi_inputs:
+                pins = se.phi_inputs[(d[2], d[3])]
+                falses = [p2 for p2, v2 in pins.items() if strip(v2)[:2] == ("int", 0)]
+                others = [(p2, v2) for p2, v2 in pins.items() if strip(v2)[:2] != ("int", 0)]
+                if len(falses) != 1 or len(others) != 1:
+                    return None
+                # the `a && b` join: `false` comes from a's false edge, b is evaluated behind a's true edge
+                for sb, d2, f_t, t_t in util.bool_switches(se):
+                    if cfg.must_pass_edge(body, (sb, f_t), falses[0]) and cfg.must_pass_edge(body, (sb, t_t), others[0][0]):
+                        a_ = conjuncts(sb, d2, t_t, depth + 1)
+                        b_ = conjuncts(others[0][0], others[0][1], None, depth + 1)
+                        if a_ is None or b_ is None:
+                            return None
+                        return a_ + b_
+            return None
+
+        for sb, d, f_t, t_t in util.bool_switches(se):
+            # the constant branch is reachable through this switch's true edge only (an `|| true`
+            # behind the test would add a second way in)
+            if not (cfg.must_pass_edge(body, (sb, t_t), cpred) and cfg.must_pass_edge(body, (sb, f_t), gpred)):
+                continue
+            cj = conjuncts(sb, d, t_t)
+            if cj is None or len(cj) != 2:
+                continue
+            n_ok = g_ok = False
+            for _, a, b, _bb in cj:
+                for u, w in ((a, b), (b, a)):
+                    if u == ("param", 6) and w[0] == "bytes" and bytes(w[1]) == bytes(N0):
+                        n_ok = True
+                    if u == ("param", 7) and w[:2] == ("int", g0):
+                        g_ok = True
+            if n_ok and g_ok:
+                guard_blocks = {b_ for _, _, _, b_ in cj} | {sb}
+                # blocks of the comparisons themselves (where the built-in constants are read)
+                for (bi, si), (loc, v) in se.assigns.items():
+                    if strip(v)[0] == "binop" and strip(v)[1] == "Eq" and any(strip(v) == ("binop", "Eq") + tuple(strip(y) for y in ()) for _ in ()):
+                        pass
+                const_branch = {b_ for b_ in cfg.reachable(body, start=t_t) if cfg.must_pass_edge(body, (sb, t_t), b_) or b_ == t_t} - {x[2]} - set(cfg.reachable(body, start=x[2]))
+                return x, gen, guard_blocks | const_branch
+    return None
+
+
 def transcripts(ctx, rep):
     fb = ctx.fb
     xor = fb.const_bytes("srp_internal::PRECALCULATED_XOR_HASH")
@@ -717,8 +799,15 @@ def transcripts(ctx, rep):
         if se is None:
             rep.violation("transcript", fn, "anchor", "function not found")
             continue
-        b = util.bexpr(ctx, se, se.ret)
-        rep.check(b == util.cb(want), "transcript", fn, "sha1", "%s: %s" % (why, show_b(b)), "%s: expected %s, found %s" % (why, show_b(want), show_b(b)), se.body.loc())
+        ret_t = se.ret
+        note = ""
+        if fn == CLIENT_FNS[2]:
+            fp = default_group_fast_path(ctx, se)
+            if fp is not None:
+                ret_t = util.map_term(strip(se.ret), lambda t_: strip(fp[1]) if t_ == fp[0] else None)
+                note = " (the built-in constant is used exactly when the announced N, g equal the built-in ones, where it equals the computed value)"
+        b = util.bexpr(ctx, se, ret_t)
+        rep.check(b == util.cb(want), "transcript", fn, "sha1", "%s: %s%s" % (why, show_b(b), note), "%s: expected %s, found %s" % (why, show_b(want), show_b(b)), se.body.loc())
     # xor hash: H(N_le) xor H([g]) element-wise over all 20 positions
     fn = "srp_internal::calculate_xor_hash"
     se = ctx.wrap.run(fn)
@@ -889,7 +978,48 @@ def client_group(ctx, rep):
         def live(p_):
             se_ = ctx.wrap.run(p_)
             return (set(se_.in_state) | {0}) if se_ is not None and getattr(se_, "converged", False) else None
-        hit_c = sorted((p, c) for p in {p_ for p_, _ in hit_c} for c in util.const_uses(fb, fb.bodies[p], live(p)) if c in forbidden_consts)
+        def live2(p_):
+            lv = live(p_)
+            if p_ == CLIENT_FNS[2]:
+                se_ = ctx.wrap.run(p_)
+                fp = default_group_fast_path(ctx, se_) if se_ is not None else None
+                if fp is not None:
+                    # the guard `N == N0 && g == g0` and the constant branch behind it: there the
+                    # announced group IS the built-in one
+                    eq_blocks = set()
+                    for bi_, blk_ in enumerate(se_.body.blocks):
+                        t_ = blk_["term"]
+                        if t_["k"] == "call" and (t_.get("callee") or "").endswith("::eq"):
+                            eq_blocks.add(bi_)
+                        if any(s_["k"] == "assign" and s_["rv"].get("k") == "binop" and s_["rv"].get("op") == "Eq" for s_ in blk_["stmts"]):
+                            eq_blocks.add(bi_)
+                    base_ = lv if lv is not None else set(range(len(se_.body.blocks)))
+                    return base_ - set(fp[2]) - eq_blocks
+            return lv
+        def promoted_exempt(pp):
+            """a promoted constant (`&N0`) of the M1 function that is only read by the guard comparisons"""
+            if "::promoted[" not in pp or pp.split("::promoted[")[0] != CLIENT_FNS[2]:
+                return False
+            k_ = int(pp.split("::promoted[")[1].rstrip("]"))
+            ob = fb.bodies.get(CLIENT_FNS[2])
+            lv = live2(CLIENT_FNS[2])
+            if ob is None or lv is None:
+                return False
+            users = set()
+
+            def scan(x, bi_):
+                if isinstance(x, dict):
+                    if x.get("k") == "const" and x.get("promoted") == k_:
+                        users.add(bi_)
+                    for v_ in x.values():
+                        scan(v_, bi_)
+                elif isinstance(x, list):
+                    for v_ in x:
+                        scan(v_, bi_)
+            for bi_, blk_ in enumerate(ob.blocks):
+                scan(blk_, bi_)
+            return bool(users) and not (users & lv)
+        hit_c = sorted((p, c) for p in {p_ for p_, _ in hit_c} if not promoted_exempt(p) for c in util.const_uses(fb, fb.bodies[p], live2(p)) if c in forbidden_consts)
     rep.check(root in clo and not hit_f and not hit_c, "client-group", root, "no-builtin-group", "%d functions in the client constructor's closure; none touches the built-in group" % len(clo), "the client handshake reaches the built-in group: functions %s, constants %s" % (hit_f, hit_c))
     # positive fixture: the server closure does reach the defaults (the rule is not vacuous)
     sclo = util.call_graph_closure(fb, ["server::SrpVerifier::into_proof", "server::SrpProof::into_server"])
